@@ -282,6 +282,12 @@ def r18_4(ctx: Ctx) -> None:
             ok = cfg.dominates(un, q.node_for(f, r))
             ctx.check(ok, "R18.4", f, r, "accumulator reset only after an update was put",
                       "the update accumulator is reset on a path where no update event was put: the bytes of that chunk are never reported")
+        # ... and after EVERY put: what was reported is not reported again - every way from the put to the next increment passes a reset to 0
+        zero = [q.node_for(f, r) for r in resets if isinstance(r.value, ast.Constant) and r.value.value == 0]
+        again = any(cfg.reaches(un, q.node_for(f, i), avoid=zero) for i in incs)
+        ctx.check(not again, "R18.4", f, c, "the accumulator starts from 0 again after an update was put",
+                  f"after `{norm(c)[:60]}` the accumulator `{acc}` is not set back to 0 on every way to the next increment: the next update reports the bytes of this one again, and the "
+                  "updates of a member that takes more than one (a decode of over a second) add up to more than the bytes decoded", construct="update accumulator not reset")
         # the put's guard contains the loop's exit condition as a disjunct
         facts = q.facts_at(f, c)
         exit_var = norm(lp.test.left) if isinstance(lp.test, ast.Compare) else None
